@@ -248,3 +248,13 @@ def cases(*a, **k): pass
 def is_prefix(p, s):
     """p is a (not necessarily strict) prefix of s"""
     return bytes(s[:len(p)]) == bytes(p)
+
+
+def list_of(t):
+    """the list with the same elements as sequence t (lists never equal tuples in Python)"""
+    return list(t)
+
+
+def New(cls):
+    """a freshly allocated, uninitialised instance (the `self` of __init__)"""
+    return Shape('new', cls=cls)
